@@ -212,6 +212,60 @@ theorem body_facts (cond : Cond) (ttl k n start findur : Nat) (steps : List (Kin
               obtain ⟨d', h1, h2⟩ := hch j' r hj
               exact ⟨d', by rw [← h1]; congr 2; omega, h2⟩
 
+/-- converse of `BodyFacts.marker`: a run whose every item the condition accepts, that delivered something and
+ended less than ttl after its start, has written its marker -/
+theorem body_written (cond : Cond) (ttl k n start findur : Nat) (steps : List (Kind × Nat)) (t : TtlMap) (ok : Bool)
+    (i : Nat) (hstart : start ≤ t.now) (hok : ok = true) (hall : allOk cond steps = true)
+    (hne : i + (produced n steps i).length ≠ 0)
+    (hfast : (body cond ttl k n start findur steps t ok i).1.now < start + ttl) :
+    (body cond ttl k n start findur steps t ok i).1.m (ckey k 0) =
+      some ⟨.int ((i + (produced n steps i).length : Nat) : Int), some (start + ttl)⟩ := by
+  induction steps generalizing t ok i with
+  | nil =>
+    rw [body_nil] at hfast ⊢
+    have hn : (advance t findur).now = t.now + findur := rfl
+    have hnow : (if (ok && decide (i ≠ 0) && decide ((advance t findur).now - start < ttl)) = true then
+          (advance t findur).write (ckey k 0) (.int i) (some (ttl - ((advance t findur).now - start)))
+        else advance t findur).now = t.now + findur := by split <;> rfl
+    simp only [hnow] at hfast
+    simp only [produced, List.length_nil, Nat.add_zero] at hne ⊢
+    have hc : (ok && decide (i ≠ 0) && decide ((advance t findur).now - start < ttl)) = true := by
+      simp only [Bool.and_eq_true, decide_eq_true_eq]
+      exact ⟨⟨hok, hne⟩, by omega⟩
+    simp only [hc, if_true]
+    rw [write_m_pos _ _ _ (by omega)]
+    congr 2
+    simp only [Option.some.injEq]; omega
+  | cons st rest ih =>
+    obtain ⟨kd, d⟩ := st
+    rcases kind_cases kd with ⟨c, rfl⟩ | hk
+    · rw [body_exc] at hfast ⊢
+      have hn : (advance t d).now = t.now + d := rfl
+      have hnow : (if (ok && excOk cond c && decide ((advance t d).now - start < ttl)) = true then
+            ((advance t d).write (ckey k (i + 1)) (Res.exc c n).enc (some ttl)).write (ckey k 0) (.int (i + 1 : Nat))
+              (some (ttl - ((advance t d).now - start)))
+          else advance t d).now = t.now + d := by split <;> rfl
+      simp only [hnow] at hfast
+      have hex : excOk cond c = true := by simpa [allOk] using hall
+      have hc : (ok && excOk cond c && decide ((advance t d).now - start < ttl)) = true := by
+        simp only [Bool.and_eq_true, decide_eq_true_eq]
+        exact ⟨⟨hok, hex⟩, by omega⟩
+      simp only [hc, if_true, produced, List.length_singleton]
+      rw [write_m_pos _ _ _ (by simp; omega)]
+      simp only [write_now]
+      congr 2
+      simp only [Option.some.injEq]; omega
+    · rw [body_item _ _ _ _ _ _ _ hk] at hfast ⊢
+      rw [allOk_item _ _ hk] at hall
+      have hio : itemOk cond kd = true ∧ allOk cond rest = true := by simpa using hall
+      have hok' : (ok && itemOk cond kd) = true := by simp [hok, hio.1]
+      simp only [hok', if_true] at hfast ⊢
+      rw [produced_item _ _ hk, List.length_cons]
+      have := ih ((advance t d).write (ckey k (i + 1)) (kd.res n i).enc (some ttl)) true (i + 1)
+        (by simp; omega) rfl hio.2 (by omega) hfast
+      rw [this]
+      congr 3; omega
+
 /-- marker entry `e` of key `k` describes the logged run `r`, all of whose chunks are in the store -/
 structure Cached (cfg : Cfg) (t : TtlMap) (k : Nat) (e : Entry) (r : Run) : Prop where
   key : r.key = k
@@ -220,15 +274,20 @@ structure Cached (cfg : Cfg) (t : TtlMap) (k : Nat) (e : Entry) (r : Run) : Prop
   dl : e.dl = some (r.start + cfg.ttl k)
   chunks : ∀ j x, r.outs[j]? = some x → ∃ d, t.m (ckey k (j + 1)) = some ⟨x.enc, some d⟩ ∧ r.start + cfg.ttl k ≤ d
   wf : ∀ j x, r.outs[j]? = some x → j + 1 < r.outs.length → x.isExc = false
+  intime : r.fin < r.start + cfg.ttl k
 
 structure Inv (cfg : Cfg) (script : Nat → IBeh) (s : St) : Prop where
   cached : ∀ k e, s.store.m (ckey k 0) = some e → e.live s.store.now = true →
     ∃ n r, s.runs[n]? = some r ∧ Cached cfg s.store k e r ∧ allOk cfg.cond (script n).steps = true
+  /-- every complete, accepted run that took less than its ttl and is younger than its ttl is what the marker shows -/
+  latest : ∀ n r, s.runs[n]? = some r → allOk cfg.cond (script n).steps = true → r.outs ≠ [] →
+    r.fin < r.start + cfg.ttl r.key → s.store.now < r.start + cfg.ttl r.key →
+    s.store.m (ckey r.key 0) = some ⟨.int (r.outs.length : Nat), some (r.start + cfg.ttl r.key)⟩
   past : ∀ r ∈ s.runs, r.start ≤ s.store.now
   stamped : ∀ n r, s.runs[n]? = some r → r.outs = produced n (script n).steps 0
 
 theorem inv_init (cfg : Cfg) (script : Nat → IBeh) : Inv cfg script St.init :=
-  ⟨by simp [St.init, TtlMap.init], by simp [St.init], by simp [St.init]⟩
+  ⟨by simp [St.init, TtlMap.init], by simp [St.init], by simp [St.init], by simp [St.init]⟩
 
 theorem markerCount_cached {cfg : Cfg} {t : TtlMap} {k : Nat} {e : Entry} {r : Run} (h : Cached cfg t k e r) :
     markerCount (some e) = r.outs.length := by
@@ -242,7 +301,7 @@ theorem markerCount_cached {cfg : Cfg} {t : TtlMap} {k : Nat} {e : Entry} {r : R
 def missState (cfg : Cfg) (script : Nat → IBeh) (s : St) (k : Nat) : St :=
   let b := script s.runs.length
   let res := body cfg.cond (cfg.ttl k) k s.runs.length s.store.now b.findur b.steps s.store true 0
-  { store := res.1, runs := s.runs ++ [⟨k, s.store.now, res.2⟩] }
+  { store := res.1, runs := s.runs ++ [⟨k, s.store.now, res.2, res.1.now⟩] }
 
 theorem step_iter_miss (cfg : Cfg) (script : Nat → IBeh) (s : St) (k : Nat)
     (h : markerCount (s.store.find (ckey k 0)) = 0) :
@@ -264,12 +323,15 @@ theorem inv_miss {cfg : Cfg} {script : Nat → IBeh} {s : St} (inv : Inv cfg scr
     (script s.runs.length).steps s.store true 0 (Nat.le_refl _)
   have bo := body_outs cfg.cond (cfg.ttl k) k s.runs.length s.store.now (script s.runs.length).findur
     (script s.runs.length).steps s.store true 0
+  have bw := body_written cfg.cond (cfg.ttl k) k s.runs.length s.store.now (script s.runs.length).findur
+    (script s.runs.length).steps s.store true 0 (Nat.le_refl _) rfl
+  rw [← bo] at bw
   generalize hres : body cfg.cond (cfg.ttl k) k s.runs.length s.store.now (script s.runs.length).findur
-    (script s.runs.length).steps s.store true 0 = res at bf bo
-  have hst : missState cfg script s k = { store := res.1, runs := s.runs ++ [⟨k, s.store.now, res.2⟩] } := by
+    (script s.runs.length).steps s.store true 0 = res at bf bo bw
+  have hst : missState cfg script s k = { store := res.1, runs := s.runs ++ [⟨k, s.store.now, res.2, res.1.now⟩] } := by
     simp only [missState, hres]
   rw [hst]
-  refine ⟨?_, ?_, ?_⟩
+  refine ⟨?_, ?_, ?_, ?_⟩
   · intro k' e he hl
     simp only at he hl
     by_cases hk : k' = k
@@ -285,7 +347,7 @@ theorem inv_miss {cfg : Cfg} {script : Nat → IBeh} {s : St} (inv : Inv cfg scr
       · rw [hmark] at he
         simp only [Option.some.injEq] at he
         subst he
-        refine ⟨s.runs.length, ⟨k', s.store.now, res.2⟩, by simp, ⟨rfl, ?_, ?_, rfl, ?_, ?_⟩, hall⟩
+        refine ⟨s.runs.length, ⟨k', s.store.now, res.2, res.1.now⟩, by simp, ⟨rfl, ?_, ?_, rfl, ?_, ?_, hend⟩, hall⟩
         · simp
         · simpa using hcnt
         · intro j x hj
@@ -301,7 +363,33 @@ theorem inv_miss {cfg : Cfg} {script : Nat → IBeh} {s : St} (inv : Inv cfg scr
       obtain ⟨n, r, hr, hc, hall⟩ := inv.cached k' e he (live_mono bf.now_le hl)
       have hn : n < s.runs.length := (List.getElem?_eq_some_iff.mp hr).1
       exact ⟨n, r, by rw [List.getElem?_append_left hn]; exact hr,
-        ⟨hc.key, hc.val, hc.ne, hc.dl, fun j x hj => by rw [hfr]; exact hc.chunks j x hj, hc.wf⟩, hall⟩
+        ⟨hc.key, hc.val, hc.ne, hc.dl, fun j x hj => by rw [hfr]; exact hc.chunks j x hj, hc.wf, hc.intime⟩, hall⟩
+  · -- latest
+    intro n r hr hall hne hfast hfresh
+    simp only at hr hfresh ⊢
+    by_cases hn : n < s.runs.length
+    · rw [List.getElem?_append_left hn] at hr
+      have hfresh0 : s.store.now < r.start + cfg.ttl r.key := by have := bf.now_le; omega
+      have hm := inv.latest n r hr hall hne hfast hfresh0
+      by_cases hk : r.key = k
+      · -- an older cached run of the same key that is still fresh contradicts the miss
+        have hf : s.store.find (ckey k 0) = some ⟨.int (r.outs.length : Nat), some (r.start + cfg.ttl r.key)⟩ := by
+          rw [← hk]; exact find_eq_some.mpr ⟨hm, by simp [Entry.live]; omega⟩
+        rw [hf] at hmiss
+        simp only [markerCount] at hmiss
+        exact absurd (by simpa using hmiss) hne
+      · rw [bf.frame _ (fun j' _ => ckey_ne_of_key hk 0 j')]; exact hm
+    · have hn' : s.runs.length ≤ n := Nat.le_of_not_lt hn
+      rw [List.getElem?_append_right hn'] at hr
+      cases hd : n - s.runs.length with
+      | zero =>
+        have : n = s.runs.length := by omega
+        subst this
+        simp at hr; subst hr
+        simp only at hne hfast ⊢
+        have := bw hall (by simpa using hne) hfast
+        simpa using this
+      | succ m => simp [hd] at hr
   · intro r hr
     simp only [List.mem_append, List.mem_singleton] at hr
     rcases hr with hr | hr
@@ -324,10 +412,12 @@ theorem inv_step {cfg : Cfg} {script : Nat → IBeh} {s : St} (inv : Inv cfg scr
     Inv cfg script (step cfg script s op).1 := by
   cases op with
   | adv dt =>
-    refine ⟨?_, ?_, inv.stamped⟩
+    refine ⟨?_, ?_, ?_, inv.stamped⟩
     · intro k e he hl
       obtain ⟨n, r, hr, hc, hall⟩ := inv.cached k e he (live_mono (Nat.le_add_right _ dt) hl)
-      exact ⟨n, r, hr, ⟨hc.key, hc.val, hc.ne, hc.dl, hc.chunks, hc.wf⟩, hall⟩
+      exact ⟨n, r, hr, ⟨hc.key, hc.val, hc.ne, hc.dl, hc.chunks, hc.wf, hc.intime⟩, hall⟩
+    · intro n r hr hall hne hfast hfresh
+      exact inv.latest n r hr hall hne hfast (by simp [step] at hfresh; omega)
     · intro r hr; have := inv.past r hr; simp [step]; omega
   | iter k =>
     by_cases h : markerCount (s.store.find (ckey k 0)) = 0
